@@ -428,9 +428,10 @@ def run(ctx):
         uses = lambda t, nm: any(x == ('attr', SELF, nm) for x in T.walk(t))
         ctx.check('Threefish permutation symmetric', uses(te, '__pi') and uses(td, '__piinv') and not uses(te, '__piinv') and not uses(td, '__pi'),
                   'enc must permute with pi and dec with piinv', ctx.where(TF, 'Threefish.dec'))
-        plus = lambda t: sum(1 for x in T.walk(t) if x[0] == '+' and any(y[0] == 'idx' and y[1][0] == 'call' and y[1][1] == ('attr', SELF, '__ks') for y in x[1]))
+        unh = lambda y: y[1] if y[0] == 'hoist' else y
+        plus = lambda t: sum(1 for x in T.walk(t) if x[0] == '+' and any(y[0] == 'idx' and unh(y[1])[0] == 'call' and unh(y[1])[1] == ('attr', SELF, '__ks') for y in x[1]))
 
-        isks = lambda y: y[0] == 'idx' and y[1][0] == 'call' and y[1][1] == ('attr', SELF, '__ks')
+        isks = lambda y: y[0] == 'idx' and unh(y[1])[0] == 'call' and unh(y[1])[1] == ('attr', SELF, '__ks')
         minus = lambda t: sum(1 for x in T.walk(t) if x[0] == '*' and len(x[1]) == 2 and T.C(-1) in x[1] and any(isks(y) for y in x[1]))
         ctx.check('Threefish add/sub symmetric', plus(te) >= 2 and minus(te) == 0 and minus(td) >= 2 and plus(td) == 0,
                   'enc must add subkeys and dec subtract them (enc +%d -%d, dec +%d -%d)' % (plus(te), minus(te), plus(td), minus(td)), ctx.where(TF, 'Threefish.dec'))
